@@ -46,6 +46,8 @@ Local Arguments call_printer : simpl never.
 Local Arguments ty_string : simpl never.
 Local Arguments equal_go : simpl never.
 Local Arguments find_printer : simpl never.
+Local Arguments for_loop : simpl never.
+Local Arguments truncate : simpl nomatch.
 
 Ltac step_eq :=
   rewrite call_printer_S;
@@ -59,43 +61,176 @@ Ltac step_eq :=
 Lemma equal_printer_exists t : exists p, find_printer (tyname t) "Equal" = Some p.
 Proof. destruct t; eexists; vm_compute; reflexivity. Qed.
 
-Theorem generated_equal_is_equal_go_partial : forall t, loop_free t -> wf_names t -> forall u, wf_names u -> forall n,
-  2 * (depth t + depth u) + 5 <= n -> run_equal n t u = Ok (VBool (equal_go t u)).
+(* a range loop whose body returns false at the first index that fails a test and changes nothing otherwise *)
+Lemma for_loop_until body k v (ok : nat -> bool) (l : list val) : forall (off : nat) en buf,
+  (forall j x, nth_error l j = Some x ->
+     body (loop_env k v (Z.of_nat (off + j)) x en) buf
+     = Ok (loop_env k v (Z.of_nat (off + j)) x en, buf, if ok (off + j) then Run else Ret (VBool false))) ->
+  for_loop body k v l (Z.of_nat off) en buf
+  = Ok (en, buf, if forallb ok (seq off (List.length l)) then Run else Ret (VBool false)).
 Proof.
-  induction t; intros LF Wt u Wu n Hn; try contradiction; unfold run_equal;
-    (destruct n as [|n]; [exfalso; cbn [depth] in Hn; revert Hn; clear; intros; apply (Nat.nle_succ_0 _ (Nat.le_trans _ _ _ (Nat.le_add_l 5 _) Hn)) |]).
+  induction l as [|x r IH]; intros off en buf Hb.
+  - reflexivity.
+  - unfold for_loop; fold for_loop.
+    pose proof (Hb 0 x eq_refl) as H0. rewrite Nat.add_0_r in H0. rewrite H0. rewrite truncate_loop_env.
+    cbn [List.length seq forallb]. destruct (ok off) eqn:E; cbn.
+    + replace (Z.of_nat off + 1)%Z with (Z.of_nat (S off)) by lia.
+      apply IH. intros j y Hy. replace (S off + j) with (off + S j) by lia. apply Hb. exact Hy.
+    + reflexivity.
+Qed.
+
+Lemma forallb_ext_in {A} (f g : A -> bool) l : (forall x, In x l -> f x = g x) -> forallb f l = forallb g l.
+Proof. induction l as [|x l IH]; intros H; [reflexivity|]. cbn. rewrite (H x (or_introl eq_refl)), IH; [reflexivity|]. intros y Hy. apply H. right. exact Hy. Qed.
+
+Fixpoint go_eq (a b : list ty) : bool :=
+  match a, b with
+  | [], [] => true
+  | x :: a', y :: b' => equal_go x y && go_eq a' b'
+  | _, _ => false
+  end.
+
+Lemma go_forallb d : forall a b off, List.length a = List.length b ->
+  forallb (fun j => equal_go (nth (j - off) a d) (nth (j - off) b d)) (seq off (List.length a)) = go_eq a b.
+Proof.
+  induction a as [|x a IH]; intros [|y b] off Hl; try discriminate; [reflexivity|].
+  cbn [List.length seq forallb go_eq]. rewrite Nat.sub_diag. cbn [nth]. f_equal.
+  injection Hl as Hl. rewrite <- (IH b (S off) Hl). apply forallb_ext_in.
+  intros j Hj. apply in_seq in Hj. replace (j - off) with (S (j - S off)) by lia. reflexivity.
+Qed.
+
+Lemma go_forallb0 d a b : List.length a = List.length b ->
+  forallb (fun j => equal_go (nth j a d) (nth j b d)) (seq 0 (List.length a)) = go_eq a b.
+Proof.
+  intros Hl. rewrite <- (go_forallb d a b 0 Hl). apply forallb_ext_in. intros j _. rewrite Nat.sub_0_r. reflexivity.
+Qed.
+
+Lemma Zofnat_eqb a b : (Z.of_nat a =? Z.of_nat b)%Z = (a =? b)%nat.
+Proof. destruct (Nat.eqb_spec a b) as [->|H]; [apply Z.eqb_refl|apply Z.eqb_neq; lia]. Qed.
+
+Lemma go_eq_length a : forall b, List.length a <> List.length b -> go_eq a b = false.
+Proof. induction a as [|x a IH]; intros [|y b] H; cbn in *; try reflexivity; try congruence. rewrite IH by lia. apply andb_false_r. Qed.
+
+Lemma equal_go_struct p1 fs p2 us : equal_go (TStruct p1 fs) (TStruct p2 us) = Bool.eqb p1 p2 && go_eq fs us.
+Proof. reflexivity. Qed.
+
+(* the body of  for i := range t.Fields { if !t.Fields[i].Equal(u.Fields[i]) { return false } }  at index j *)
+Ltac equal_loop_body IH El :=
+  let j := fresh "j" in let x := fresh "x" in let Hx := fresh "Hx" in
+  let e := fresh "e" in let e' := fresh "e'" in let Ee := fresh "Ee" in let Ee' := fresh "Ee'" in
+  let Hj := fresh "Hj" in let pr := fresh "pr" in
+  intros j x Hx; rewrite Nat.add_0_l; unfold loop_env; cbn;
+  assert ((Z.of_nat j <? 0)%Z = false) as -> by (apply Z.ltb_ge; lia); rewrite Nat2Z.id;
+  rewrite nth_error_map in Hx; rewrite !nth_error_map;
+  match type of Hx with context [nth_error ?fs j] =>
+    destruct (nth_error fs j) as [e|] eqn:Ee; [|discriminate];
+    match goal with |- context [nth_error ?us j] =>
+      assert (j < List.length us) as Hj by (rewrite <- El; apply nth_error_Some; congruence);
+      destruct (nth_error us j) as [e'|] eqn:Ee'; [|apply nth_error_None in Ee'; lia];
+      cbn; destruct (equal_printer_exists e) as [pr ->];
+      fold (reify_ty e); fold (reify_ty e');
+      match goal with |- context [call_printer impl [] ?n (tyname e) "Equal" (VTuple [reify_ty e; reify_ty e'])] => fold (run_equal n e e') end;
+      rewrite (IH e e' (nth_error_In _ _ Ee) (nth_error_In _ _ Ee'));
+      rewrite (nth_error_nth _ _ TVoid Ee), (nth_error_nth _ _ TVoid Ee');
+      destruct (equal_go e e'); reflexivity
+    end
+  end.
+
+Lemma step_struct_eq n p1 fs p2 us :
+  (forall e e', In e fs -> In e' us -> run_equal n e e' = Ok (VBool (equal_go e e'))) ->
+  run_equal (S n) (TStruct p1 fs) (TStruct p2 us) = Ok (VBool (equal_go (TStruct p1 fs) (TStruct p2 us))).
+Proof.
+  intros IH. unfold run_equal. step_eq. rewrite equal_go_struct.
+  destruct p1, p2; cbn; try reflexivity;
+  (rewrite !map_length, Zofnat_eqb; destruct (Nat.eqb_spec (List.length fs) (List.length us)) as [El|El]; cbn;
+   [|rewrite go_eq_length by exact El; reflexivity];
+   change 0%Z with (Z.of_nat 0);
+   erewrite (for_loop_until _ "i" "_" (fun j => equal_go (nth j fs TVoid) (nth j us TVoid)) _ 0);
+   [rewrite map_length, (go_forallb0 TVoid fs us El); destruct (go_eq fs us); reflexivity
+   |equal_loop_body IH El]).
+Qed.
+
+Lemma equal_go_func r1 ps1 v1 r2 ps2 v2 :
+  equal_go (TFunc r1 ps1 v1) (TFunc r2 ps2 v2) = equal_go r1 r2 && go_eq ps1 ps2 && Bool.eqb v1 v2.
+Proof. reflexivity. Qed.
+
+Lemma step_func_eq n r1 ps1 v1 r2 ps2 v2 :
+  run_equal n r1 r2 = Ok (VBool (equal_go r1 r2)) ->
+  (forall e e', In e ps1 -> In e' ps2 -> run_equal n e e' = Ok (VBool (equal_go e e'))) ->
+  run_equal (S n) (TFunc r1 ps1 v1) (TFunc r2 ps2 v2) = Ok (VBool (equal_go (TFunc r1 ps1 v1) (TFunc r2 ps2 v2))).
+Proof.
+  intros IHr IH. unfold run_equal. step_eq. rewrite equal_go_func. cbn.
+  destruct (equal_printer_exists r1) as [pr ->]. fold (reify_ty r1). fold (reify_ty r2). fold (run_equal n r1 r2).
+  rewrite IHr. destruct (equal_go r1 r2); cbn; [|reflexivity].
+  rewrite !map_length, Zofnat_eqb. destruct (Nat.eqb_spec (List.length ps1) (List.length ps2)) as [El|El]; cbn;
+   [|rewrite go_eq_length by exact El; reflexivity].
+  change 0%Z with (Z.of_nat 0).
+  erewrite (for_loop_until _ "i" "_" (fun j => equal_go (nth j ps1 TVoid) (nth j ps2 TVoid)) _ 0);
+   [rewrite map_length, (go_forallb0 TVoid ps1 ps2 El); destruct (go_eq ps1 ps2); cbn; [|reflexivity]
+   |equal_loop_body IH El].
+  reflexivity.
+Qed.
+
+Lemma wf_all_in (l : list ty) :
+  (fix all (l : list ty) : Prop := match l with [] => True | x :: r => wf_names x /\ all r end) l -> forall e, In e l -> wf_names e.
+Proof. induction l as [|x r IH]; intros H e He; [contradiction|]. destruct H as [Hx Hr]. destruct He as [->|He]; [exact Hx|apply IH; assumption]. Qed.
+
+Definition eq_ok (t : ty) : Prop := forall u, wf_names u -> forall n, 2 * (depth t + depth u) + 5 <= n -> run_equal n t u = Ok (VBool (equal_go t u)).
+
+Lemma fuel_S n k : k + 5 <= n -> exists m, n = S m. Proof. intros H. destruct n; [lia|eauto]. Qed.
+
+Theorem generated_equal_is_equal_go : forall t, wf_names t -> eq_ok t.
+Proof.
+  fix IH 1. intros t Wt. unfold eq_ok. intros u Wu n Hn.
+  assert (forall l, (fix all (l : list ty) : Prop := match l with [] => True | x :: r => wf_names x /\ all r end) l ->
+            Forall eq_ok l) as Lst.
+  { induction l as [|x r IHl]; intros Hl; constructor; [apply IH, Hl|apply IHl, Hl]. }
+  destruct (fuel_S n _ Hn) as [m ->]. unfold run_equal.
+  destruct t.
   1-5: destruct u; step_eq; reflexivity.
-  - (* integer types *)
-    destruct u; step_eq; try reflexivity. cbn. rewrite Zeqb_ofN'. reflexivity.
-  - (* floating-point types *)
-    destruct u; step_eq; try reflexivity. cbn. rewrite fkind_num_eqb. reflexivity.
-  - (* pointer types: compared through their printed forms *)
-    step_eq. cbn.
-    assert (call_printer impl [] n "types.PointerType" "String" (reify_ty (TPtr t addrspace)) = Ok (VStr (ty_string (TPtr t addrspace)))) as ->.
-    { replace n with (2 * depth (TPtr t addrspace) + 3 + (n - (2 * depth (TPtr t addrspace) + 3))) by lia.
+  - destruct u; step_eq; try reflexivity. cbn. rewrite Zeqb_ofN'. reflexivity.
+  - destruct u; step_eq; try reflexivity. cbn. rewrite fkind_num_eqb. reflexivity.
+  - step_eq. cbn.
+    assert (call_printer impl [] m "types.PointerType" "String" (reify_ty (TPtr t addrspace)) = Ok (VStr (ty_string (TPtr t addrspace)))) as ->.
+    { replace m with (2 * depth (TPtr t addrspace) + 3 + (m - (2 * depth (TPtr t addrspace) + 3))) by lia.
       apply (generated_printer_is_ty_string (TPtr t addrspace) Wt). }
-    assert (call_printer impl [] n (tyname u) "String" (reify_ty u) = Ok (VStr (ty_string u))) as ->.
-    { replace n with (2 * depth u + 3 + (n - (2 * depth u + 3))) by lia. apply (generated_printer_is_ty_string u Wu). }
+    assert (call_printer impl [] m (tyname u) "String" (reify_ty u) = Ok (VStr (ty_string u))) as ->.
+    { replace m with (2 * depth u + 3 + (m - (2 * depth u + 3))) by lia. apply (generated_printer_is_ty_string u Wu). }
     rewrite no_string_field. reflexivity.
-  - (* vector types *)
-    destruct u; step_eq; try reflexivity. cbn.
+  - destruct u; step_eq; try reflexivity. cbn.
     unfold equal_go; fold equal_go.
     destruct (Bool.eqb scalable scalable0); cbn; [|reflexivity].
     rewrite Zeqb_ofN'. destruct (N.eqb len len0); cbn; [|reflexivity].
     destruct (equal_printer_exists t) as [p ->].
-    fold (reify_ty t). fold (reify_ty u). fold (run_equal n t u).
-    rewrite IHt; [reflexivity|exact LF|exact Wt|exact Wu|cbn [depth] in Hn; lia].
-  - (* array types *)
-    destruct u; step_eq; try reflexivity. cbn.
+    fold (reify_ty t). fold (reify_ty u). fold (run_equal m t u).
+    rewrite (IH t Wt u Wu m); [reflexivity|cbn [depth] in Hn; lia].
+  - destruct u; step_eq; try reflexivity. cbn.
     unfold equal_go; fold equal_go.
     rewrite Zeqb_ofN'. destruct (N.eqb len len0); cbn; [|reflexivity].
     destruct (equal_printer_exists t) as [p ->].
-    fold (reify_ty t). fold (reify_ty u). fold (run_equal n t u).
-    rewrite IHt; [reflexivity|exact LF|exact Wt|exact Wu|cbn [depth] in Hn; lia].
-  - (* identified struct types: compared by name *)
-    destruct u; step_eq; try reflexivity.
-    + (* against a literal struct: the literal has no name *)
-      cbn [wf_names] in Wt. destruct name as [|b0 name]; [contradiction|]. cbn. reflexivity.
+    fold (reify_ty t). fold (reify_ty u). fold (run_equal m t u).
+    rewrite (IH t Wt u Wu m); [reflexivity|cbn [depth] in Hn; lia].
+  - (* literal struct *)
+    destruct u; try (step_eq; reflexivity).
+    + apply (step_struct_eq m). intros e e' He He'.
+      pose proof (Lst fields Wt) as F. rewrite Forall_forall in F.
+      apply (F e He e' (wf_all_in _ Wu e' He')).
+      pose proof (depth_in e fields He). pose proof (depth_in e' fields0 He'). cbn [depth] in Hn. lia.
+    + (* against an identified struct: the names differ *)
+      step_eq. cbn [wf_names] in Wu. destruct name as [|b0 name]; [contradiction|]. cbn. reflexivity.
+  - destruct u; step_eq; try reflexivity.
+    + cbn [wf_names] in Wt. destruct name as [|b0 name]; [contradiction|]. cbn. reflexivity.
     + cbn [wf_names] in Wt, Wu. destruct name as [|b0 name]; [contradiction|]. cbn. reflexivity.
+  - destruct u; try (step_eq; reflexivity).
+    cbn [wf_names] in Wt, Wu. destruct Wt as [Wr Wps]. destruct Wu as [Wr' Wps'].
+    apply (step_func_eq m).
+    + apply (IH t Wr u Wr'). cbn [depth] in Hn. lia.
+    + intros e e' He He'. pose proof (Lst params Wps) as F. rewrite Forall_forall in F.
+      apply (F e He e' (wf_all_in _ Wps' e' He')).
+      pose proof (depth_in e params He). pose proof (depth_in e' params0 He'). cbn [depth] in Hn. lia.
 Qed.
-Print Assumptions generated_equal_is_equal_go_partial.
+Print Assumptions generated_equal_is_equal_go.
+
+(* the earlier statement for loop-free types, now a corollary *)
+Corollary generated_equal_is_equal_go_partial : forall t, loop_free t -> wf_names t -> forall u, wf_names u -> forall n,
+  2 * (depth t + depth u) + 5 <= n -> run_equal n t u = Ok (VBool (equal_go t u)).
+Proof. intros t _ Wt. exact (generated_equal_is_equal_go t Wt). Qed.
